@@ -2,7 +2,7 @@
 
    commits  c1 (no package)  c2 (package with a syntax error)  c3 (package, API 1)  c4 (package, API 2)  c5 (HEAD)
    tags     v0 -> c1, bad -> c2, v1 -> c3 (latest tag)
-   branches main -> c5 (checked out), feat/x -> c4, feat-x -> c4 (same normalised name), x -> c3, griffe-x -> c3 (a user branch named like one of
+   branches main -> c5 (checked out), feat/x -> c4, feat-x -> c4 (same normalised name), x -> c3, side/y -> c6 (own commit on top of c3, not merged into main), griffe-x -> c3 (a user branch named like one of
             griffe's temporary branches), wt-user -> c4 (checked out in a user worktree `uwt` next to the repo)
 The `ignored` variant commits a .gitignore with `__pycache__/` in every commit.
 """
@@ -113,6 +113,12 @@ def build_template(dst: str, ignored: bool) -> str:
     git(dst, "tag", "v1")
     git(dst, "branch", "x")
     git(dst, "branch", "griffe-x")
+    # a diverging branch: its own commit on top of c3, NOT an ancestor of main's HEAD
+    git(dst, "checkout", "-q", "-b", "side/y")
+    _write(os.path.join(dst, "SIDE.md"), "side branch\n")
+    git(dst, "add", "-A")
+    git(dst, "commit", "-q", "-m", "c6: side branch (API 1)", date=3)
+    git(dst, "checkout", "-q", "main")
     _write(os.path.join(dst, PRIV, "__init__.py"), API2)
     git(dst, "add", "-A")
     git(dst, "commit", "-q", "-m", "c4: API 2", date=4)
